@@ -845,7 +845,10 @@ class ElementNode(XPathNode):
         elif base_uri is None:
             return self.parent.base_uri
         else:
-            return urljoin(self.parent.base_uri or '', base_uri)
+            try:
+                return urljoin(self.parent.base_uri or '', base_uri)
+            except ValueError:
+                return base_uri  # not a resolvable URI reference
 
     @property
     def is_id(self) -> bool:
@@ -1158,7 +1161,10 @@ class EtreeElementNode(ElementNode):
         elif base_uri is None:
             return self.parent.base_uri
         else:
-            return urljoin(self.parent.base_uri or '', base_uri)
+            try:
+                return urljoin(self.parent.base_uri or '', base_uri)
+            except ValueError:
+                return base_uri  # not a resolvable URI reference
 
     @property
     def nilled(self) -> bool:
@@ -1504,7 +1510,10 @@ class SchemaElementNode(ElementNode):
         elif base_uri is None:
             return self.parent.base_uri
         else:
-            return urljoin(self.parent.base_uri or '', base_uri)
+            try:
+                return urljoin(self.parent.base_uri or '', base_uri)
+            except ValueError:
+                return base_uri  # not a resolvable URI reference
 
     @property
     def type_name(self) -> str | None:
